@@ -426,9 +426,10 @@ def run_fault(case, site, code, persistent):
 class CrashAt:
     wants_write_ops = True
 
-    def __init__(self, root, site):
+    def __init__(self, root, site, mid=False):
         self.root = os.path.abspath(str(root))
         self.site = site
+        self.mid = mid          # die INSIDE a descriptor-level write: the first half reaches the file
         self.n = -1
 
     def wants_proxy(self, op):
@@ -437,15 +438,22 @@ class CrashAt:
     def pre(self, op):
         self.n += 1
         if self.n == self.site:
+            if self.mid and op.partial is not None:
+                try:
+                    op.partial()
+                except BaseException:  # noqa
+                    os._exit(78)
+                os._exit(79)
             os._exit(77)
 
     def post(self, op, error):
         pass
 
 
-def run_crash(case, site):
-    """Fork a child that performs the call and dies immediately before operation `site`.
-    Returns the exit status (77 = died at the site, 0 = call completed before reaching it)."""
+def run_crash(case, site, mid=False):
+    """Fork a child that performs the call and dies immediately before operation `site` (mid=True: inside it, after
+    half of a descriptor-level write). Returns the exit status (77 = died at the site, 79 = died inside it,
+    0 = call completed before reaching it)."""
     shutil.rmtree(case.rundir, ignore_errors=True)
     shutil.copytree(case.template, case.rundir)
     sys.stdout.flush()
@@ -457,7 +465,7 @@ def run_crash(case, site):
             env = case.world("run", store)
             env._paths = dict(case._paths)
             probe.install()
-            probe.set_controller(CrashAt(case.rundir, site))
+            probe.set_controller(CrashAt(case.rundir, site, mid))
             env.execute(case.call)
         except BaseException:  # noqa
             os._exit(3)
